@@ -64,6 +64,7 @@ def empty_graph(cls, directed=None):
     return g
 
 
+Tok = z3.DeclareSort("OrderToken")
 PathSeq = z3.DeclareSort("NodeSequence")
 plen = z3.Function("seq_len", PathSeq, I)
 SetA = set_sort(Atom)
@@ -199,10 +200,12 @@ class Lib:
         p = fresh("p", PairAA)
         if g.fields["_directed"]:
             return EdgeView(E, True, z3.Lambda([p], E[PairAA.accessor(0, 0)(p), PairAA.accessor(0, 1)(p)]))
-        C = fresh("uedges", set_sort(PairAA))
-        a, b = fresh("a", Atom), fresh("b", Atom)
-        st.assume(z3.ForAll([a, b], z3.Implies(C[PairAA.mk(a, b)], E[a, b])))
-        st.assume(z3.ForAll([a, b], z3.Implies(E[a, b], z3.Or(C[PairAA.mk(a, b)], C[PairAA.mk(b, a)]))))
+        # undirected edges(): every edge once, in an orientation fixed by an unknown listing order
+        tok = fresh("eord", Tok)
+        Bf = self.before_fn(ex, Atom)
+        q = fresh("q", PairAA)
+        q0, q1 = PairAA.accessor(0, 0)(q), PairAA.accessor(0, 1)(q)
+        C = z3.Lambda([q], z3.And(E[q0, q1], z3.Or(q0 == q1, Bf(tok, q0, q1))))
         return EdgeView(E, False, C)
 
     def obj_equal(self, ex, a, b, st):
@@ -298,6 +301,24 @@ class Lib:
             ex.used_lib.add("len(): uninterpreted cardinality with axioms n>=0, n=0 <=> empty, n=1 <=> singleton, |S+x| = |S|+1")
         return d(c.mem)
 
+    def before_fn(self, ex, esort):
+        """Before(tok, a, b): a is listed before b in the (unknown) sequence order denoted by the order token.
+        Only totality/asymmetry on distinct elements is axiomatised (all that pair enumeration depends on)."""
+        key = ("before", str(esort))
+        if key not in self.card_fns:
+            F = z3.Function(f"Before_{esort}", Tok, esort, esort, B)
+            t, a, b = fresh("t", Tok), fresh("a", esort), fresh("b", esort)
+            ax = [z3.ForAll([t, a, b], z3.Implies(a != b, F(t, a, b) != F(t, b, a)), patterns=[F(t, a, b)]),
+                  z3.ForAll([t, a], z3.Not(F(t, a, a)), patterns=[F(t, a, a)])]
+            self.card_fns[key] = (F, ax)
+        F, ax = self.card_fns[key]
+        flag = "_before_ax_" + str(esort)
+        if not getattr(ex, flag, False):
+            setattr(ex, flag, True)
+            ex.axioms += ax
+            ex.used_lib.add("itertools.combinations(S,2) / Graph.edges(): each unordered pair once, oriented by an unknown total listing order")
+        return F
+
     def ensure_order(self, ex):
         if not getattr(ex, "_order_added", False):
             ex.axioms += order_axioms()
@@ -342,14 +363,16 @@ class Lib:
                 p = fresh("p", ps)
                 return Coll("iter", ps, z3.Lambda([p], z3.And(c.mem[ps.accessor(0, 0)(p)], c.mem[ps.accessor(0, 1)(p)],
                                                              ps.accessor(0, 0)(p) != ps.accessor(0, 1)(p))), nodup=True)
-            C = fresh("comb", set_sort(ps))
-            if c.nodup:
-                st.assume(z3.ForAll([a, b], z3.Implies(C[ps.mk(a, b)], z3.And(c.mem[a], c.mem[b], a != b))))
-                st.assume(z3.ForAll([a, b], z3.Implies(C[ps.mk(a, b)], z3.Not(C[ps.mk(b, a)]))))
-            else:
-                st.assume(z3.ForAll([a, b], z3.Implies(C[ps.mk(a, b)], z3.And(c.mem[a], c.mem[b]))))
-            st.assume(z3.ForAll([a, b], z3.Implies(z3.And(c.mem[a], c.mem[b], a != b), z3.Or(C[ps.mk(a, b)], C[ps.mk(b, a)]))))
-            return Coll("iter", ps, C, nodup=c.nodup)
+            # combinations(S, 2) lists every unordered pair once, in an orientation that depends on the (unknown) order
+            # of S: Comb(S, tok) is an uninterpreted function of the member set and an order token
+            tok = c.ord if c.ord is not None else fresh("ord", Tok)
+            Bf = self.before_fn(ex, c.esort)
+            p = fresh("p", ps)
+            p0, p1 = ps.accessor(0, 0)(p), ps.accessor(0, 1)(p)
+            if not c.nodup:
+                raise Unsupported("combinations over a sequence with possible duplicates")
+            C = z3.Lambda([p], z3.And(c.mem[p0], c.mem[p1], p0 != p1, Bf(tok, p0, p1)))
+            return Coll("iter", ps, C, nodup=True)
         if name == "itertools.product" and len(args) == 2:
             c1, c2 = ex.as_coll(args[0], st), ex.as_coll(args[1], st)
             if c1.mem is None or c2.mem is None:
@@ -425,6 +448,13 @@ class Lib:
                 return self.graph_method(ex, cname, recv, name, args, kwargs, st)
         return NotImplemented
 
+    def order_fn(self, ex, g, kind):
+        """adjacency lists are reported in an order fixed by the (unmodelled) insertion history of this graph object"""
+        key = ("ordfn", id(ex), g.fields["_E"].get_id(), kind)
+        if key not in self.card_fns:
+            self.card_fns[key] = (g.fields["_E"], z3.Function(f"order_{kind}!{len(self.card_fns)}", Atom, Tok))
+        return self.card_fns[key][1]
+
     def graph_method(self, ex, cname, g, name, args, kwargs, st):
         if cname not in ("DiGraph", "Graph"):
             return NotImplemented
@@ -445,8 +475,11 @@ class Lib:
             if name == "predecessors":
                 if not directed:
                     raise Unsupported("predecessors on undirected")
-                return Coll("iter", Atom, z3.Lambda([x], E[x, n]), nodup=True)
-            return Coll("iter", Atom, z3.Lambda([x], E[n, x]), nodup=True)
+                r = Coll("iter", Atom, z3.Lambda([x], E[x, n]), nodup=True)
+            else:
+                r = Coll("iter", Atom, z3.Lambda([x], E[n, x]), nodup=True)
+            r.ord = self.order_fn(ex, g, name)(n)
+            return r
         if name == "has_edge":
             ex.used_lib.add(tag)
             return Scalar(E[z3_of(args[0]), z3_of(args[1])])
